@@ -771,7 +771,12 @@ impl Builtins {
                     }
                     elems.push(Rc::new(P(Int(num))));
                     pos_list.push(pos.clone());
-                    num += step;
+                    // A range that ends within one step of i64::MAX must stop
+                    // here instead of overflowing.
+                    num = match num.checked_add(step) {
+                        Some(n) => n,
+                        None => break,
+                    };
                 }
             }
             _ => {
